@@ -218,4 +218,28 @@ PROPS = {
                             'against an explicit DFT matrix and a dense mode-by-mode solve; equilibrium gives zero density and potential')],
         assumptions=['simulated MPI (vf/shim)'],
     ),
+    'C08': dict(
+        level='other',
+        contracts=[],
+        functions=[],
+        bounded=[dict(module='vf.rt.bounded_splines', prop='C08',
+                      bound='degrees 1-5 (thorough 1-D up to 8), 1..12 cells (thorough up to 33), clamped/periodic, uniform/non-uniform/'
+                            'uniform-cubic, six domains; 1-D: S(x_i)=u_i (oracle, scalar and vector evaluation), badly scaled / spike / '
+                            'complex data, polynomial reproduction everywhere on clamped spaces, wrapped coefficients, multi-step reuse '
+                            'and shared bases; 2-D: all boundary combinations, different degrees and sizes per direction, memory layouts; '
+                            'oracle = scipy BSpline on knots written from the definition + dense collocation solve; tolerances from LU '
+                            'backward error bounds')],
+        assumptions=['scipy.interpolate.BSpline and dense numpy solves as independent oracle'],
+    ),
+    'C09': dict(
+        level='other',
+        contracts=[],
+        functions=[],
+        bounded=[dict(module='vf.rt.bounded_splines', prop='C09',
+                      bound='same sweep of spaces as C08; stored integrals entry by entry against the exact antiderivative, weights = '
+                            'integrals of the cardinal interpolating splines, sum = domain length, equal weights on uniform periodic '
+                            'spaces, w.u = exact integral of the interpolant for several data kinds, repeated / interleaved calls on '
+                            'shared BSplines objects leave the stored integrals bit-identical')],
+        assumptions=['scipy exact spline antiderivative as independent oracle'],
+    ),
 }
